@@ -91,9 +91,28 @@ class RelayWorld(object):
       pass
     # existing outgoing transports (none at boot) and pending connectors are fine
     self.install_router_mirror()
+    if self.settings.RELAY_METHOD in ('aggregated-consistent-hashing', 'fast-aggregated-hashing'):
+      import os
+      from .props import routeprops
+      path = os.path.join(os.environ['GRAPHITE_ROOT'], 'conf', 'aggregation-rules.conf')
+      self.ref_rules_file = routeprops.RefRulesFile(path, self.w.cfg['files'].get('aggregation-rules.conf'))
+      self.t0 = r.seconds()
+      r.callLater(10.0, self.ref_rules_tick)
     # tie-break randomness inside twisted's reconnect back-off
     import random as _random
     self.w.tip.random = _random.Random(self.plan.get('jitter_seed', 1))
+
+  def ref_rules_tick(self):
+    n = self.ref_rules_file.nreloads
+    self.ref_rules_file.tick()
+    if self.ref_rules_file.nreloads != n:
+      self.ctx.probe('aggregation_rules_reloaded')
+    if self.r.running:
+      self.r.callLater(10.0, self.ref_rules_tick)
+
+  def at_reload_instant(self):
+    dt = (self.r.seconds() - self.t0) % 10.0
+    return dt < 1e-9 or 10.0 - dt < 1e-9
 
   def log_observer(self, event):
     if event.get('isError'):
@@ -563,6 +582,10 @@ class RelayWorld(object):
       self.advance(op[1])
     elif k == 'stop':
       self.do_stop()
+    elif k == 'file':
+      from . import boot
+      boot.write_file(op[1], op[2], int(self.r.seconds()) + 1)
+      self.ctx.fault('rules_file_rewritten')
     elif k == 'stopclient':
       d = ds[op[1] % len(ds)]
       try:
